@@ -11,6 +11,8 @@ pub enum Tok {
     Bool(bool),
     Str(String),
     Ident(String),
+    /// a literal token written in a particular way (`0x1e` for 30, `1E+3` for 1000.0); equal to the plain token
+    Spelled(Box<Tok>, String),
 }
 
 pub const OPS: [&str; 28] = [
@@ -29,7 +31,7 @@ pub fn op_static(s: &str) -> Option<&'static str> {
 
 impl PartialEq for Tok {
     fn eq(&self, other: &Tok) -> bool {
-        match (self, other) {
+        match (self.inner(), other.inner()) {
             (Tok::Op(a), Tok::Op(b)) => a == b,
             (Tok::Int(a), Tok::Int(b)) => a == b,
             (Tok::Float(a), Tok::Float(b)) => a.to_bits() == b.to_bits(),
@@ -42,9 +44,18 @@ impl PartialEq for Tok {
 }
 
 impl Tok {
+    /// the token without its spelling
+    pub fn inner(&self) -> &Tok {
+        match self {
+            Tok::Spelled(t, _) => t.inner(),
+            t => t,
+        }
+    }
+
     /// canonical source text of the token
     pub fn text(&self) -> String {
         match self {
+            Tok::Spelled(_, s) => s.clone(),
             Tok::Op(o) => o.to_string(),
             Tok::Int(i) => format!("{}", i),
             Tok::Float(f) => format!("{:?}", f),
@@ -54,16 +65,16 @@ impl Tok {
         }
     }
     pub fn is_op(&self, o: &str) -> bool {
-        matches!(self, Tok::Op(x) if *x == o)
+        matches!(self.inner(), Tok::Op(x) if *x == o)
     }
     pub fn is_literal(&self) -> bool {
-        matches!(self, Tok::Int(_) | Tok::Float(_) | Tok::Bool(_) | Tok::Str(_))
+        matches!(self.inner(), Tok::Int(_) | Tok::Float(_) | Tok::Bool(_) | Tok::Str(_))
     }
     pub fn is_ident(&self) -> bool {
-        matches!(self, Tok::Ident(_))
+        matches!(self.inner(), Tok::Ident(_))
     }
     pub fn is_word(&self) -> bool {
-        matches!(self, Tok::Int(_) | Tok::Float(_) | Tok::Bool(_) | Tok::Ident(_))
+        matches!(self.inner(), Tok::Int(_) | Tok::Float(_) | Tok::Bool(_) | Tok::Ident(_))
     }
 }
 
